@@ -6,6 +6,7 @@ CONSTANTS
   StrLens = {0, 5}
   CallocShapes <- ShapesQuick
   SrcOffsets = {0, 1}
+  CallocWraps <- WrapsAll
   HugeSizes <- HugeAll
   Levels = {0, 6}
   Obs <- ObsEmit
